@@ -402,6 +402,7 @@ def make_receiver(sc, rng, kind, src, dst, I_groups, sig):
     h = sc.h
     keep = set(I_groups) | NEVER_POISON
     if kind == "copydata+poison":
+        h.ok("data %d" % dst)
         h.ok("copydata %d %d" % (dst, src))
         pg = [g for g in sc.info.groups if g not in keep]
         seed = rng.randrange(1 << 30)
@@ -494,11 +495,194 @@ def build_all(ctx):
     return man, sf, dj
 
 
-def run(ctx):
+# ------------------------------------------------------------------------------------------ directed probes (findings)
+def simple_model(extra_lines, enable=0, disable=0, solver="mjSOL_NEWTON", cone="mjCONE_PYRAMIDAL"):
+    L = ["option timestep 0.002", "option enableflags %d" % enable, "option disableflags %d" % disable,
+         "option solver %d" % E(solver), "option cone %d" % E(cone),
+         "geom 1 0", "set 1 type %d" % E("mjGEOM_PLANE"), "set 1 size 5 5 0.1"]
+    return "\n".join(L + extra_lines) + "\nend\n"
+
+
+def probe_sleep_latent(h, sig):
+    """KNOWN DEVIATION (documented upstream, doc/programming/simulation.rst "Notes on sleeping"): once a tree sleeps its
+    derived arrays are latent state, so mj_copyState(mjSTATE_INTEGRATION) into a fresh mjData does not reproduce the
+    trajectory while mj_copyData does.  Returns (finding or None, info)."""
+    body = ["body 2 0", "set 2 pos 0 0 0.12", "freejoint 3 2", "geom 4 2", "set 4 type %d" % E("mjGEOM_SPHERE"), "set 4 size 0.1",
+            "body 5 0", "set 5 pos 1 0 0.5", "joint 6 5", "set 6 type %d" % E("mjJNT_HINGE"), "set 6 axis 0 1 0",
+            "geom 7 5", "set 7 type %d" % E("mjGEOM_CAPSULE"), "set 7 size 0.05 0.2", "set 7 pos 0.3 0 0"]
+    text = simple_model(body, enable=E("mjENBL_SLEEP"))
+    if not h.model(text).startswith("ok"):
+        return None, {"skipped": "model does not compile"}
+    h.ok("data 0")
+    asleep = False
+    for k in range(40):
+        for _ in range(100):
+            h.cmd("call 0 step")
+        ta = h.cmd("get 0 tree_asleep").split(":", 1)[1].split()
+        if any(int(x) >= 0 for x in ta):
+            asleep = True
+            break
+    if not asleep:
+        return None, {"skipped": "no tree fell asleep"}
+    h.ok("data 1")
+    h.ok("copystate 1 0 %d" % sig)
+    h.ok("data 2")
+    h.ok("copydata 2 0")
+    res = {}
+    for i in range(3):
+        for k in (0, 1, 2):
+            h.cmd("call %d step" % k)
+        res[i] = (h.cmd("cmp 0 1 qpos qvel qacc"), h.cmd("cmp 0 2 qpos qvel qacc"))
+    info = {"steps_to_sleep": (k + 1) * 100, "copystate_vs_src": res[2][0], "copydata_vs_src": res[2][1]}
+    if any(v[1] != "=" for v in res.values()):
+        return {"key": "c01:copydata-not-deterministic", "what": "mj_copyData copy diverges from its source (sleeping model)",
+                "replay": {"model": text, "commands": h.log[1:][-30:]}}, info
+    if any(v[0] != "=" for v in res.values()):
+        return {"key": "c01:sleep-latent-state",
+                "what": "with mjENBL_SLEEP and a sleeping tree, a fresh mjData that received mj_copyState(mjSTATE_INTEGRATION) "
+                        "diverges bitwise from the source after mj_step (fields %s) while an mj_copyData copy does not: the "
+                        "sleep state (tree_asleep + derived arrays of sleeping trees) is not part of the integration state "
+                        "(documented upstream as a limitation of sleeping)" % res[2][0],
+                "replay": {"model": text, "commands": ["data 0", "call 0 step  (x%d, until tree_asleep >= 0)" % ((k + 1) * 100),
+                                                       "data 1", "copystate 1 0 %d" % sig, "call 0 step", "call 1 step",
+                                                       "cmp 0 1 qpos qvel qacc"]}}, info
+    return None, info
+
+
+def probe_inverse_actuator_sensor(h, sig):
+    """mj_inverse does not recompute actuator forces, mj_sensorAcc reads them: an actuator-force sensor reports the force
+    of the last forward call (surfaced by MjProof.C01.inverse_inputs_subset_state_partial)."""
+    body = ["body 2 0", "set 2 pos 0 0 0.5", "joint 3 2", "set 3 type %d" % E("mjJNT_HINGE"), "set 3 axis 0 1 0", "name 3 j1",
+            "geom 4 2", "set 4 type %d" % E("mjGEOM_CAPSULE"), "set 4 size 0.05 0.2", "set 4 pos 0.3 0 0",
+            "actuator 5", "name 5 a1", "set 5 trntype %d" % E("mjTRN_JOINT"), "set 5 target j1",
+            "sensor 6", "set 6 type %d" % E("mjSENS_ACTUATORFRC"), "set 6 objtype %d" % E("mjOBJ_ACTUATOR"), "set 6 objname a1"]
+    text = simple_model(body)
+    if not h.model(text).startswith("ok"):
+        return None, {"skipped": "model does not compile"}
+    cmds = ["data 0", "set 0 ctrl 0.75", "set 0 qpos 0.3", "call 0 forward", "data 1", "copystate 1 0 %d" % sig]
+    for c in cmds:
+        h.ok(c)
+    q = h.cmd("get 0 qacc").split(":", 1)[1].split()
+    cmds.append("set 1 qacc " + " ".join("x" + x for x in q))
+    h.ok(cmds[-1])
+    cmds += ["call 0 inverse", "call 1 inverse", "cmp 0 1 sensordata qfrc_inverse"]
+    h.ok(cmds[-3])
+    h.ok(cmds[-2])
+    d = h.cmd(cmds[-1])
+    info = {"differing": d, "sensordata_src": h.cmd("get 0 sensordata"), "sensordata_fresh": h.cmd("get 1 sensordata")}
+    if "sensordata" in d.split():
+        return {"key": "c01:inverse-stale-actuator-force",
+                "what": "mj_inverse on two mjData with equal integration state and qacc gives different sensordata for an "
+                        "ACTUATORFRC sensor: mj_sensorAcc reads actuator_force, which inverse dynamics does not recompute "
+                        "(value of the last forward call; 0 in a fresh mjData)",
+                "replay": {"model": text, "commands": cmds, "observed": info}}, info
+    return None, info
+
+
+def probe_efc_state(h, sig):
+    """with constraint islands the CG / Newton solvers work on the island copies (iefc_state) and never write efc_state back:
+    after mj_forward it holds the warm-start classification, or stale data when warm-starting is disabled."""
+    body = []
+    hh = 2
+    for k in range(2):
+        body += ["body %d 0" % hh, "set %d pos %g 0 0.09" % (hh, 0.5 * k), "freejoint %d %d" % (hh + 1, hh),
+                 "geom %d %d" % (hh + 2, hh), "set %d type %d" % (hh + 2, E("mjGEOM_SPHERE")), "set %d size 0.1" % (hh + 2)]
+        hh += 3
+    text = simple_model(body, disable=E("mjDSBL_WARMSTART"))
+    if not h.model(text).startswith("ok"):
+        return None, {"skipped": "model does not compile"}
+    cmds = ["data 0", "call 0 step", "call 0 step", "call 0 step", "data 1", "copystate 1 0 %d" % sig, "call 0 forward",
+            "call 1 forward", "cmp 0 1 efc_state efc_force qacc"]
+    for c in cmds[:-1]:
+        h.ok(c)
+    d = h.cmd(cmds[-1])
+    info = {"differing": d, "nefc": h.cmd("scalar 0 nefc"), "nisland": h.cmd("scalar 0 nisland"),
+            "efc_state_src": h.cmd("get 0 efc_state"), "efc_state_fresh": h.cmd("get 1 efc_state")}
+    if d.split() == ["efc_state"]:
+        return {"key": "c01:efc_state-stale-with-islands",
+                "what": "after mj_forward on two mjData with equal integration state (islands on, Newton, warm start disabled) "
+                        "efc_state differs while efc_force and qacc agree: the island solvers update iefc_state only, "
+                        "efc_state keeps whatever the receiving mjData held",
+                "replay": {"model": text, "commands": cmds, "observed": info}}, info
+    if d != "=":
+        return {"key": "c01:outputs differ", "what": "probe_efc_state: %s differ" % d, "replay": {"model": text, "commands": cmds}}, info
+    return None, info
+
+
+# ------------------------------------------------------------------------------------------ run
+def build_all(ctx):
+    kernelval.regen(ctx)
+    man = json.load(open(os.path.join(GEN_DIR, "pipeline_manifest.json")))
+    ctx.oblige("skeleton translator refused nothing", "translator", not man.get("refused"), json.dumps(man.get("refused")))
+    ctx.oblige("skeleton translated from this tree", "translator", man.get("repo") == common.REPO, "%s vs %s" % (man.get("repo"), common.REPO))
+    sf, dj = load_state_fields()
+    ctx.oblige("mjData field translator refused nothing", "translator", sf is not None, json.dumps(dj.get("refused")))
+    ctx.oblige("field list translated from this tree", "translator", dj.get("repo") == common.REPO, "%s vs %s" % (dj.get("repo"), common.REPO))
+    return man, sf, dj
+
+
+def failure_key(f):
+    if f["what"].startswith("harness died"):
+        return "c01:crash"
+    if f.get("entry") == "inverse" and set(f.get("fields", [])) <= {"sensordata@sensAcc"}:
+        return "c01:inverse-outputs-differ"
+    return "c01:%s-%s" % (f.get("entry", "?"), f["what"].replace(" ", "-"))
+
+
+def run_models(ctx, info, exe, sf, sig, nmodels, sleep, thorough, stats):
     rng = ctx.rng
+    h = Harness(exe)
+    vprob, fails = [], []
+    for mi in range(nmodels):
+        mdl = make_model(rng, sleep=sleep)
+        sleeping = bool(mdl.optflags["enable"] & E("mjENBL_SLEEP"))
+        try:
+            sc = Scene(h, info, mdl, sleeping)
+            if not sc.loaded:
+                stats["not_compiled"] = stats.get("not_compiled", 0) + 1
+                continue
+            sc.state_fields = sf
+            if not stats.get("coverage_checked"):
+                stats["coverage_checked"] = True
+                dj = json.load(open(os.path.join(GEN_DIR, "DataFields.json")))
+                missing = [f["name"] for f in dj["fields"] if f["name"] not in sc.present]
+                ctx.oblige("harness observes every member of struct mjData_", "correspondence", not missing, str(missing))
+            pr, n = validate_model(sc, rng)
+            stats["stage_validations"] = stats.get("stage_validations", 0) + n
+            vprob += pr
+            receivers = ("copydata+poison",) if sleeping else RECEIVERS
+            for entry in ("forward", "step", "inverse"):
+                for rec in receivers:
+                    if not thorough and rng.random() < 0.45:
+                        continue
+                    sc.random_state(rng, 0)
+                    for _ in range(rng.randint(0, 3)):
+                        h.cmd("call 0 step")
+                    if entry == "inverse":
+                        h.cmd("call 0 forward")
+                    f = differential(sc, rng, entry, rec, sig, nsteps=(3 if entry == "step" else 1))
+                    k = "%s:%s:%s" % ("sleep" if sleeping else "nosleep", entry, rec)
+                    stats["diff"][k] = stats["diff"].get(k, 0) + 1
+                    ctx.count((ctx.seed, sleep, mi, entry, rec), nontrivial=sc.sizes.get("nv", 0) > 0)
+                    if f:
+                        f["options"] = dict(mdl.options)
+                        f["replay"] = {"model": mdl.text(), "commands": h.log[1:][-80:]}
+                        fails.append(f)
+            if mi < 2 and not sleeping:
+                ctx.sample({"model_options": mdl.options, "sizes": sc.sizes, "stages_validated": n})
+        except HarnessDied as e:
+            fails.append({"what": "harness died (%s)" % e, "replay": {"model": mdl.text(), "commands": h.log[1:][-80:]}})
+            h.close()
+            h = Harness(exe)
+    h.close()
+    return vprob, fails
+
+
+def run(ctx):
     thorough = ctx.tier == "thorough"
-    ctx.rule = ("generated models (gen/models.py + extra flags / history buffers / userdata) × random states; a case = (model, state, "
-                "stage or entry point, receiver kind); non-trivial = nv > 0")
+    ctx.rule = ("generated models (gen/models.py + extra flags / history buffers / userdata) x random states; a case = (model, state, "
+                "entry point, receiver kind) for the differentials and (model, state, stage) for the footprint validation; "
+                "non-trivial = nv > 0")
     man, sf, dj = build_all(ctx)
     ctx.lean_props(THEOREMS)
     drv = ctx.driver("drv_c01")
@@ -507,51 +691,42 @@ def run(ctx):
         return
     info = LeanInfo(drv)
     sig = dj["integration_sig"]
-    # the harness observes exactly the members the translator found
-    h = Harness(exe)
-    nmodels = 120 if thorough else 14
-    nV, nD, vprob, fails = 0, 0, [], []
-    hist = {}
-    crashed = 0
-    for mi in range(nmodels):
-        sleeping = False
-        mdl = make_model(rng, sleep=0.0)
-        try:
-            sc = Scene(h, info, mdl, sleeping)
-            if not sc.loaded:
-                continue
-            sc.state_fields = sf
-            if mi == 0:
-                missing = [f["name"] for f in dj["fields"] if f["name"] not in sc.present]
-                ctx.oblige("harness observes every member of struct mjData_", "correspondence", not missing, str(missing))
-            pr, n = validate_model(sc, rng)
-            nV += n
-            vprob += pr
-            for entry in ("forward", "step", "inverse"):
-                for rec in RECEIVERS:
-                    if not thorough and rng.random() < 0.5:
-                        continue
-                    sc.random_state(rng, 0)
-                    for _ in range(rng.randint(0, 3)):
-                        h.cmd("call 0 step")
-                    if entry == "inverse":
-                        h.cmd("call 0 forward")
-                    f = differential(sc, rng, entry, rec, sig, nsteps=(3 if entry == "step" else 1))
-                    nD += 1
-                    hist[entry + ":" + rec] = hist.get(entry + ":" + rec, 0) + 1
-                    ctx.count((mi, entry, rec), nontrivial=sc.sizes.get("nv", 0) > 0)
-                    if f:
-                        f["replay"] = {"model": mdl.text(), "commands": h.log[1:][-80:]}
-                        fails.append(f)
-        except HarnessDied as e:
-            crashed += 1
-            fails.append({"what": "harness died (%s)" % e, "replay": {"model": mdl.text(), "commands": h.log[1:][-80:]}})
-            h = Harness(exe)
-    h.close()
-    ctx.extra["stage_validations"] = nV
-    ctx.extra["differentials"] = hist
-    ctx.oblige("footprint table validated on the real engine (V1/V2, %d stage runs)" % nV, "correspondence", not vprob,
-               json.dumps(vprob[:4])[:1800])
+    stats = {"diff": {}}
+    vprob, fails = run_models(ctx, info, exe, sf, sig, 160 if thorough else 12, 0.0, thorough, stats)
+    v2, f2 = run_models(ctx, info, exe, sf, sig, 60 if thorough else 4, 1.0, thorough, stats)
+    vprob += v2
+    fails += f2
+    ctx.extra["stage_validations"] = stats.get("stage_validations", 0)
+    ctx.extra["differentials"] = stats["diff"]
+    ctx.extra["models_not_compiled"] = stats.get("not_compiled", 0)
+    ctx.extra["conditional_fields"] = info.cond
+    ctx.extra["analysis"] = {e: {k: info.analyze(p, False, "-")[k] for k in ("rbw", "killN")} for e, p in ENTRY_PROG.items()}
+    ctx.oblige("footprint table validated on the real engine (V1/V2, %d stage runs)" % stats.get("stage_validations", 0),
+               "correspondence", not vprob, json.dumps([{k: v for k, v in p.items() if k != "replay"} for p in vprob[:4]])[:1800])
+    if vprob:
+        ctx.disagreements += [dict(p, stream="footprint") for p in vprob[:10]]
+        # a footprint that the engine does not respect is at once a stale-read / unexpected-write witness
+        p0 = vprob[0]
+        ctx.oracle_failure("c01:footprint:%s:%s" % (p0["stage"], p0["kind"]),
+                           "stage %s does not respect its footprint (%s): %s" % (p0["stage"], p0["kind"], p0.get("differing") or p0.get("field") or p0.get("msg")), p0)
     for f in fails[:6]:
-        ctx.oracle_failure("c01:" + f["what"].split(" (")[0], f["what"], f)
+        ctx.oracle_failure(failure_key(f), f["what"] + (": " + " ".join(f.get("fields", [])) if f.get("fields") else ""), f)
+    # directed probes: documented deviations / surfaced dependencies, each under a stable key
+    h = Harness(exe, timeout=60.0)
+    probes = {}
+    for name, fn in (("sleep_latent_state", probe_sleep_latent), ("inverse_actuator_sensor", probe_inverse_actuator_sensor),
+                     ("efc_state_islands", probe_efc_state)):
+        try:
+            finding, pinfo = fn(h, sig)
+        except (HarnessDied, RuntimeError) as e:
+            finding, pinfo = None, {"skipped": str(e)}
+            h.close()
+            h = Harness(exe, timeout=60.0)
+        probes[name] = pinfo
+        if finding:
+            ctx.oracle_failure(finding["key"], finding["what"], finding["replay"])
+    h.close()
+    ctx.extra["probes"] = probes
     ctx.extra["oracle_failures"] = len(fails)
+    if thorough:
+        ctx.leanchecker(["MjProof.Props.C01"])
